@@ -12,6 +12,7 @@
 -/
 import DfolsVerif.Proofs.RunsAcc
 import DfolsVerif.Proofs.CountAcc
+import DfolsVerif.Gen.ExitSites
 
 namespace Dfols
 namespace C10
@@ -128,6 +129,66 @@ example : (accept 3 10 (.num 1) exTrace).toOption.map (fun s => (s.nruns, s.rsts
 /-- the pinned tree's double increment (`nruns = 2` without a restart) is rejected -/
 example : (accept 1 10 (.num 1) [.rst 0 0 0 false 1 3, .obj 1 1 1 7 (.num 5) 1,
     .rend 1 1 2 1 .maxfun 1 1 (.num 5) true false]).toOption.isNone = true := by decide
+
+/-! ### layer G — the creation sites themselves (table generated from /repo's AST on this run)
+
+  The acceptor rules above mirror the places where `ExitInformation` objects are created.  The theorems
+  below are about the generated table of ALL such places (`Gen.exitSites`: function, flag, message and the
+  path condition under which the constructor call stands) and are decided over the whole table: no
+  reference copy is involved, so an unrelated edit keeps them, while a new or moved site that creates the
+  flag/message outside its defining test breaks them. -/
+
+/-- every site creating the max-evaluations warning stands under a budget test (`nf >= maxfun`), or is
+    `soft_restart`'s refusal `not ok_to_do_restart` with `ok_to_do_restart` defined as
+    `runs-since-success < max_unsuccessful and nf < maxfun` (the other reason for the refusal is turned into
+    the 'unsuccessful restarts' success by the next statement, see `C10_src_restarts`) -/
+theorem C10_src_maxfun : ∀ s ∈ Gen.exitSites, s.flag = "EXIT_MAXFUN_WARNING" →
+    (s.path.any (fun l => l ∈ [⟨true, "self.nf", ">=", "self.maxfun"⟩, ⟨true, "nf", ">=", "maxfun"⟩]) = true) ∨
+    (⟨false, "ok_to_do_restart", "", ""⟩ ∈ s.path ∧
+      s.defs = [("ok_to_do_restart", "nruns_so_far - self.last_successful_run < params('restarts.max_unsuccessful_restarts') and self.nf < self.maxfun")]) := by
+  decide +kernel
+
+/-- every site creating 'Objective is sufficiently small' is a success and stands under
+    `<objective of the evaluations just made> <= threshold`, the threshold being `model.min_objective_value()`
+    inside a run and `model.abs_tol` at the starting point -/
+theorem C10_src_small : ∀ s ∈ Gen.exitSites, s.msg = "Objective is sufficiently small" →
+    s.flag = "EXIT_SUCCESS" ∧
+    (s.path.any (fun l => l.pos && l.op == "<=" &&
+        ((l.rhs == "self.model.min_objective_value()" &&
+            (l.lhs == "sumsq(np.mean(rvec_list[:num_samples_run, :], axis=0))" ||
+             l.lhs == "sumsq(np.mean(rvec_list[:num_samples_run, :], axis=0)) + self.h(remove_scaling(x, self.scaling_changes), *self.argsh)")) ||
+         (l.rhs == "params('model.abs_tol')" &&
+            (l.lhs == "sumsq(r0_avg)" || l.lhs == "sumsq(r0_avg) + h(remove_scaling(x0, scaling_changes), *argsh)")))) = true) := by
+  decide +kernel
+
+/-- the threshold: `max(abs_tol, rel_tol * f(x0))`, or `abs_tol` when `f(x0)` is not finite -/
+theorem C10_src_threshold : Gen.minObjectiveValueSrc =
+    "if not np.isfinite(self.objbeg):     return self.abs_tol ; return max(self.abs_tol, self.rel_tol * self.objbeg)" := by
+  decide +kernel
+
+/-- every site creating 'rho has reached rhoend' is a success and stands where `control.rho > rhoend` is false -/
+theorem C10_src_rhoend : ∀ s ∈ Gen.exitSites, s.msg = "rho has reached rhoend" →
+    s.flag = "EXIT_SUCCESS" ∧ ⟨false, "control.rho", ">", "rhoend"⟩ ∈ s.path := by
+  decide +kernel
+
+/-- every site creating 'Reached maximum number of unsuccessful restarts' is a success and stands under
+    `runs since the last successful one >= restarts.max_unsuccessful_restarts` -/
+theorem C10_src_restarts : ∀ s ∈ Gen.exitSites, s.msg = "Reached maximum number of unsuccessful restarts" →
+    s.flag = "EXIT_SUCCESS" ∧
+    (s.path.any (fun l => l.pos && l.op == ">=" && l.rhs == "params('restarts.max_unsuccessful_restarts')" &&
+        (l.lhs == "nruns_so_far - self.last_successful_run" || l.lhs == "nruns - last_successful_run")) = true) := by
+  decide +kernel
+
+/-- a success flag is created for exactly four documented reasons -/
+theorem C10_src_success_reasons : ∀ s ∈ Gen.exitSites, s.flag = "EXIT_SUCCESS" →
+    s.msg ∈ ["Objective is sufficiently small", "rho has reached rhoend", "All points within noise level",
+             "Reached maximum number of unsuccessful restarts"] := by
+  decide +kernel
+
+/-- non-vacuity: the table has sites of each kind -/
+example : (Gen.exitSites.filter (·.flag = "EXIT_MAXFUN_WARNING")).length = 3 ∧
+    (Gen.exitSites.filter (·.msg = "Objective is sufficiently small")).length = 4 ∧
+    (Gen.exitSites.filter (·.msg = "rho has reached rhoend")).length = 2 := by decide +kernel
 
 end C10
 end Dfols
